@@ -303,10 +303,19 @@ func genC29(t *rapid.T) c29Case {
 		As   []c29Assign
 		Vars map[string]string
 	}
+	var chained []*cxSetting
+	for _, s := range tagged {
+		if len(s.Levels) > 1 {
+			chained = append(chained, s)
+		}
+	}
 	settingGen := rapid.Custom(func(t *rapid.T) group {
 		g := group{Vars: map[string]string{}}
 		var s *cxSetting
-		if rapid.IntRange(0, 9).Draw(t, "tagged") < 6 {
+		if k := rapid.IntRange(0, 9).Draw(t, "tagged"); k < 2 && len(chained) > 0 {
+			// settings with a fallback chain (own option + shared option) get their own share
+			s = chained[rapid.IntRange(0, len(chained)-1).Draw(t, "ci")]
+		} else if k < 6 {
 			s = tagged[rapid.IntRange(0, len(tagged)-1).Draw(t, "si")]
 		} else {
 			s = plain[rapid.IntRange(0, len(plain)-1).Draw(t, "pi")]
@@ -581,6 +590,9 @@ func c29Eval(assigns []c29Assign, vars map[string]string, locVia string, flagEq 
 					if lv.DocOnly[n] {
 						src = "flag-doc"
 					}
+					if li > 0 {
+						src += "-shared"
+					}
 					fl = append(fl, cand(src, a, true))
 					if c29HasRef(a.Val) {
 						e.All = append(e.All, cand(src+"-raw", a, false))
@@ -592,6 +604,9 @@ func c29Eval(assigns []c29Assign, vars map[string]string, locVia string, flagEq 
 					src := "env"
 					if lv.DocOnly[n] {
 						src = "env-doc"
+					}
+					if li > 0 {
+						src += "-shared"
 					}
 					en = append(en, cand(src, a, true))
 					if c29HasRef(a.Val) {
@@ -617,10 +632,40 @@ func c29Eval(assigns []c29Assign, vars map[string]string, locVia string, flagEq 
 				for _, lv2 := range s.Levels[li+1:] {
 					for _, n := range lv2.Flags {
 						if a := flags[n]; a != nil {
-							e.Acceptable = append(e.Acceptable, cand("flag", a, true))
+							e.Acceptable = append(e.Acceptable, cand("flag-shared", a, true))
 						}
 					}
 				}
+			}
+		}
+		// an option whose rank the documentation does not give: any of the given options may win
+		{
+			undocSet, levelsSet := false, 0
+			var all []c29Cand
+			for _, lv := range s.Levels {
+				set := false
+				for _, n := range lv.Flags {
+					if flags[n] != nil {
+						set = true
+					}
+				}
+				for _, n := range lv.Envs {
+					if envs[n] != nil {
+						set = true
+					}
+				}
+				if set {
+					levelsSet++
+					undocSet = undocSet || lv.Undoc
+				}
+			}
+			if undocSet && levelsSet > 1 {
+				for _, c := range e.All {
+					if !strings.HasSuffix(c.Src, "-raw") {
+						all = append(all, c)
+					}
+				}
+				e.Acceptable = all
 			}
 		}
 		for fi := 1; fi >= 0; fi-- {
@@ -989,7 +1034,7 @@ func TestC29(t *testing.T) {
 			"Non-trivial: some setting has >=2 sources present. Distinct = distinct case JSON.",
 		Assumptions: []string{
 			"effective values are observed through the exported Config getters only (settings without a getter are out of scope)",
-			"precedence among DIFFERENT names feeding one setting: specific before shared within the same kind; a specific env var vs a shared flag is not decided by the statement (either accepted, counted as ambiguous)",
+			"the order of a fallback chain (own option before shared option) is taken from the documentation only - the metadata's envvar:/commandLine: lists and the README 'takes precedence' note - never from the struct's cmdenv tag order; the CmdEnv option table only pairs each documented env var with its flag; own before shared within the same kind; a specific env var vs a shared flag is not decided by the statement (either accepted, counted as ambiguous)",
 			"zero/empty flag or env values are not generated (cmdenv.go documents that a zero value means 'not given')",
 			"a rejected configuration whose only invalid value is one that a higher-precedence source overrides is a don't-care (counted, not asserted)",
 			"documented default = the metadata's scalar default; settings whose metadata gives no default are not asserted when no source is present; deprecated settings (lastversion set) are out of scope",
